@@ -190,8 +190,13 @@ impl<'a> Arbitrary<'a> for Label {
 pub struct Domain(Vec<Label>);
 
 impl Domain {
+    // DNS names compare ASCII case-insensitively (RFC 4343).
     pub fn ends_with(&self, other: &Self) -> bool {
-        self.0.ends_with(&other.0)
+        self.0.len() >= other.0.len()
+            && self.0[self.0.len() - other.0.len()..]
+                .iter()
+                .zip(other.0.iter())
+                .all(|(a, b)| a.0.eq_ignore_ascii_case(&b.0))
     }
 }
 
